@@ -39,7 +39,7 @@ func runC16(e *Env) {
 		return
 	}
 	r.Count("functions of package disasm", len(fns))
-	r.Floor("E6.panic(functions)", len(fns), 8)
+	r.Floor("E6.panic(functions)", len(fns), 3)
 
 	// ---- compiler BCE list
 	bces, err := nopanic.CompilerBCE(p.Dir, "./cmd/seccomp-profiler/disasm")
@@ -302,7 +302,7 @@ func checkNilDeref(e *Env, p *load.Program, fns []*ssa.Function) {
 			}
 		}
 	}
-	r.Floor("E6.nilderef(dereferences of nilable results)", n, 3)
+	r.Floor("E6.nilderef(dereferences of nilable results)", n, 1)
 	checkNilReceivers(e, p, fns)
 }
 
